@@ -450,6 +450,10 @@ def arity_rule(P, E, H):
                             and b.id == sb.id:
                         sz = A.size(b, k.args[0]) if k.path in COLLECT else A.val(b, k.args[1])
                         Q = _add(Q or (0, 0), _mul(sz, A.loop_mult(b, k.bb)))
+            if Q is None and any(k.path in ("std::vec::Vec::new", "std::vec::Vec::with_capacity") and
+                                 ((k.dest_t or {}).get("s", "") if isinstance(k.dest_t, dict) else "").startswith("std::vec::Vec<std::collections::VecDeque<")
+                                 for b in bodies for k in b.calls):
+                Q = (0, 0)          # the vector of per-input queues exists but nothing is ever put into it
             if Q is not None:
                 r.instance((tr, "queues"), True, "per-input queues allocated %s" % _fmt(Q))
                 if Q != R:
